@@ -233,7 +233,15 @@ permit(principal, action, resource) when { context.s.containsAny([1]) && princip
 			v := types.NewRecord(types.RecordMap{"z": types.NewSet(types.String("b"), types.String("a"), types.Long(1), types.True), "a": types.NewRecord(types.RecordMap{"y": types.Long(1), "x": types.Long(2)}),
 				"m": types.NewSet(types.NewEntityUID("U", "b"), types.NewEntityUID("U", "a"), types.NewSet(types.Long(2), types.Long(1)))})
 			js, err := json.Marshal(v)
-			return string(v.MarshalCedar()) + "\n" + string(js) + "\n" + v.String(), err
+			// members that collide at the LAST slot of the hash space (raw value -1 as long, decimal,
+			// duration, datetime): all but one wrap around to slots 0, 1, 2
+			dm1, _ := types.NewDecimal(-1, -4)
+			w := types.NewSet(types.Long(-1), dm1, types.NewDurationFromMillis(-1), types.NewDatetimeFromMillis(-1), types.Long(0), types.Long(1))
+			wjs, _ := json.Marshal(types.NewRecord(types.RecordMap{"w": w}))
+			var wback types.Value
+			_ = types.UnmarshalJSON(wjs, &wback)
+			wjs2, _ := json.Marshal(wback)
+			return string(v.MarshalCedar()) + "\n" + string(js) + "\n" + v.String() + "\n" + string(w.MarshalCedar()) + w.String() + string(wjs) + string(wjs2), err
 		}},
 		{"schema-text-decode-reencode", func() (string, error) {
 			var s schema.Schema
